@@ -151,6 +151,7 @@ func c09R3(r *Run, pf, mf *c09fn) {
 			"val:":      {"val": "strconv.ParseUint(*)#0"},
 		}
 		seen := map[string]bool{}
+		var allKeys []string
 		// a key test is strings.HasPrefix(part, K) with the value cut off by hand (part[len(K):]),
 		// or strings.CutPrefix(part, K), whose first result IS part[len(K):] whenever its second
 		// result (the one tested) is true
@@ -170,7 +171,23 @@ func c09R3(r *Run, pf, mf *c09fn) {
 			key, _ := strconv.Unquote(constString(k))
 			kk := "tag-key[" + key + "]"
 			w, known := wantKeys[key]
-			if !r.Check(kk+":known", known && !seen[key], r.Where(call), "tag key "+key+" is one of the six documented keys, tested once") {
+			if !known {
+				// a key beyond the documented six: compatible with the property exactly when nothing
+				// observable depends on it (rules_t8c09.go: its influence is followed through the module)
+				allKeys = append(allKeys, key)
+				v := c09KeyVerdicts(r)[key]
+				switch {
+				case v == nil:
+					r.Fail(kk+":wire-key-or-allocation-hint", r.Where(call), "undecided: tag key "+key+" is not one of the six documented keys and its influence could not be followed")
+				case v.hint:
+					r.Pass(kk+":wire-key-or-allocation-hint", r.Where(call), fmt.Sprintf("tag key %s is not one of the six documented keys, and nothing the codec accepts or emits depends on it: its value reaches only capacity operands of allocations (through field(s) %v of the field info)", key, v.fields))
+				default:
+					r.Fail(kk+":wire-key-or-allocation-hint", v.where, "tag key "+key+" is not one of the six documented keys (what the codec accepts and emits is a function of maxval / size / maxlen / minlen / selector / val alone, as the presentation language and the RFC 6962 structures have no other bounds) and it is not a mere allocation hint: "+v.why)
+				}
+				continue
+			}
+			allKeys = append(allKeys, key)
+			if !r.Check(kk+":known", !seen[key], r.Where(call), "tag key "+key+" is one of the six documented keys, tested once") {
 				continue
 			}
 			seen[key] = true
@@ -247,6 +264,16 @@ func c09R3(r *Run, pf, mf *c09fn) {
 			}
 		}
 		r.Check("tag-keys", len(seen) == 6, r.FnPos(fn), fmt.Sprintf("%d of the six tag keys are recognised", len(seen)))
+		// clauses are told apart by their prefix: no key may begin with another one
+		amb := ""
+		for _, k1 := range allKeys {
+			for _, k2 := range allKeys {
+				if k1 != k2 && strings.HasPrefix(k1, k2) {
+					amb = fmt.Sprintf("a clause %q… also matches the test for %q", k1, k2)
+				}
+			}
+		}
+		r.Check("tag-keys-unambiguous", amb == "", r.FnPos(fn), "no tag key is a prefix of another one "+amb)
 	}
 }
 
